@@ -14,6 +14,7 @@ var Registry = map[string]func(tier string){
 	"C12": C12,
 	"C13": C13,
 	"C14": C14,
+	"C20": C20,
 }
 
 // Worker is the entry point of re-exec'd worker processes (C09).
